@@ -112,6 +112,8 @@ def find_powershell_strings(data: bytes) -> list[Node]:
                 else:
                     # In a single quoted string, find the end quote
                     end = data.find(b"'", start)
+                if end < 0:
+                    end = len(data)  # unterminated string or clause, the rest of the text is the command
                 powershell = data[start:end]
             else:
                 # No recognizable context, assume rest of file is all powershell
